@@ -8,6 +8,7 @@ import (
 	"testing"
 
 	"github.com/wollac/iota-crypto-demo/pkg/bip39"
+	"github.com/wollac/iota-crypto-demo/pkg/bip39/wordlist"
 	"golang.org/x/text/unicode/norm"
 	"pgregory.net/rapid"
 
@@ -28,6 +29,32 @@ func TestMain(m *testing.M) {
 }
 
 var langs = []string{"english", "japanese"}
+
+// Other lists registered by an application under names that differ from the built-in ones only in case or
+// surrounding blanks: "english" and "japanese" must stay the official lists (every sub-check that selects
+// them would notice a replacement).
+type otherList struct{ words []string }
+
+func (o otherList) Contains(w string) bool { return o.Index(w) >= 0 }
+func (o otherList) Word(i int) string      { return o.words[i] }
+func (o otherList) Index(w string) int {
+	for i, x := range o.words {
+		if x == w {
+			return i
+		}
+	}
+	return -1
+}
+
+func init() {
+	words := make([]string, 2048)
+	for i := range words {
+		words[i] = fmt.Sprintf("w%04d", i)
+	}
+	for _, name := range []string{"English", "ENGLISH", " english", "english ", "Japanese", "JAPANESE ", "japanese\n"} {
+		bip39.RegisterWordList(name, func() wordlist.List { return otherList{words} })
+	}
+}
 
 func list(lang string) *ref.List {
 	l, err := ref.Load(lang)
@@ -124,6 +151,9 @@ func genEntropy(t *rapid.T) entCase {
 	lang := h.OneOf(t, "lang", langs...)
 	if h.Pick(t, "sz", 12, 1) == 1 {
 		n := rapid.IntRange(0, 70).Draw(t, "badn")
+		if h.Pick(t, "wrapn", 2, 1) == 1 { // sizes that equal a valid size modulo 256 or 65536, and sizes around them
+			n = h.OneOf(t, "wrapbase", 256, 512, 65536) + h.OneOf(t, "wrapoff", 0, 15, 16, 20, 32, 48, 64, 65)
+		}
 		return entCase{lang, h.Bytes(t, "e", n, n)}
 	}
 	n := 16 + 4*rapid.IntRange(0, 12).Draw(t, "n")
@@ -135,7 +165,7 @@ func TestEntropy(t *testing.T) {
 		Prop: "C03", Name: "entropy-roundtrip", N: 20000,
 		Gen: genEntropy, Check: checkEntropy,
 		Require: []string{"entropy/english", "entropy/japanese", "entropy/leading-zero-byte", "entropy/all-zero", "invalid-size"},
-		Rule:    "entropy of every size 16..64 step 4 (uniform, 1-8 leading / trailing zero bytes, all-zero, all-ones, single bit) x {english, japanese}; sentence = bit-string reference, decode returns the entropy; invalid sizes 0..70 rejected with ErrInvalidEntropySize; non-trivial = valid size and not all-zero; distinct by (list, entropy)",
+		Rule:    "entropy of every size 16..64 step 4 (uniform, 1-8 leading / trailing zero bytes, all-zero, all-ones, single bit) x {english, japanese}; sentence = bit-string reference, decode returns the entropy; invalid sizes 0..70 and 256/512/65536 + {0,15,16,20,32,48,64,65} rejected with ErrInvalidEntropySize; non-trivial = valid size and not all-zero; distinct by (list, entropy)",
 	})
 }
 
